@@ -601,7 +601,7 @@ class Interp(Engine):
             raise OutOfSubset('class attribute %s.%s' % (obj.name, attr))
         if isinstance(obj, LazyModule):
             return self.resolve_lazy(obj.getattr(attr))
-        if isinstance(obj, ExternalModule):
+        if isinstance(obj, (ExternalModule, ExternalAttr)):
             return ExternalAttr(obj.name + '.' + attr)
         if isinstance(obj, (SSeq, SBytes, SStr, list, dict, set, str, bytes, tuple)):
             return MethodOf(obj, attr)
@@ -1131,7 +1131,20 @@ class Interp(Engine):
 
     def s_Try(self, node, env, rc):
         if node.finalbody:
-            raise OutOfSubset('try/finally')
+            # try/finally: the final block runs on every exit (normal, return, break/continue, exception)
+            import copy
+            inner = copy.copy(node)
+            inner.finalbody = []
+            try:
+                if node.handlers or node.orelse:
+                    self.s_Try(inner, env, rc)
+                else:
+                    self.exec_block(node.body, env, rc)
+            except (PyRaise, _Return, _Break, _Continue):
+                self.exec_block(node.finalbody, env, rc)
+                raise
+            self.exec_block(node.finalbody, env, rc)
+            return
         try:
             self.exec_block(node.body, env, rc)
         except PyRaise as e:
@@ -1200,7 +1213,51 @@ class Interp(Engine):
         raise OutOfSubset('nested class statement %s' % node.name)
 
     def s_With(self, node, env, rc):
-        raise OutOfSubset('with statement')
+        """`with` for (a) objects implementing sym_enter/sym_exit (contract-provided, e.g. an opened file) and
+        (b) @contextmanager generator functions of the shape  try: <pre>; yield <value>  finally: <post>"""
+        if len(node.items) != 1:
+            raise OutOfSubset('with statement with several items')
+        item = node.items[0]
+        call = item.context_expr
+        cm = None
+        if isinstance(call, ast.Call):
+            fn = self.eval(call.func, env)
+            fn = self.resolve_lazy(fn)
+            if isinstance(fn, Closure) and any(isinstance(d, ast.Name) and d.id == 'contextmanager' for d in fn.node.decorator_list):
+                cm = fn
+        if cm is None:
+            obj = self.eval(call, env)
+            if not hasattr(obj, 'sym_enter'):
+                raise OutOfSubset('with statement on %r' % (obj,))
+            val = obj.sym_enter(self)
+            if item.optional_vars is not None:
+                self.assign_target(item.optional_vars, val, env)
+            try:
+                self.exec_block(node.body, env, rc)
+            except (PyRaise, _Return, _Break, _Continue):
+                obj.sym_exit(self)
+                raise
+            obj.sym_exit(self)
+            return
+        body = [s for s in cm.node.body if not (isinstance(s, ast.Expr) and isinstance(s.value, ast.Constant))]
+        if len(body) != 1 or not isinstance(body[0], ast.Try) or body[0].handlers or not body[0].finalbody:
+            raise OutOfSubset('context manager %s is not of the shape try: ...; yield  finally: ...' % cm.qualname)
+        pre = body[0].body
+        if not pre or not isinstance(pre[-1], ast.Expr) or not isinstance(pre[-1].value, ast.Yield):
+            raise OutOfSubset('context manager %s does not end its try block with yield' % cm.qualname)
+        args = [self.eval(a, env) for a in call.args]
+        cenv = Env(cm.env)
+        self.bind_args(cm.node.args, args, {}, cenv, cm)
+        try:
+            self.exec_block(pre[:-1], cenv, rc)
+            yv = self.eval(pre[-1].value.value, cenv) if pre[-1].value.value is not None else None
+            if item.optional_vars is not None:
+                self.assign_target(item.optional_vars, yv, env)
+            self.exec_block(node.body, env, rc)
+        except (PyRaise, _Return, _Break, _Continue):
+            self.exec_block(body[0].finalbody, cenv, rc)
+            raise
+        self.exec_block(body[0].finalbody, cenv, rc)
 
     # ---- loops
     def s_For(self, node, env, rc):
